@@ -26,7 +26,7 @@ def states(tier, seed):
     fam = seed % 3
     st = []
     sides = [("left", 2), ("left", 3), ("left", 4), ("full", 3), ("full", 5), ("right", 3)] + ([("left", 7), ("full", 7), ("right", 4)] if tier == "thorough" else [])
-    layouts = ["straight", "swept", "sweptdi", "kinked"]
+    layouts = ["straight", "swept", "sweptdi", "kinked", "swept60", "winglet"]
     secs = ["uniform", "varying", "tube"]
     for lay, (side, ny), sec, model in itertools.product(layouts, sides, secs, ["tube", "wingbox"]):
         st.append(dict(part="frame", layout=lay, side=side, ny=ny, sec=sec, model=model, fam=fam))
@@ -43,8 +43,18 @@ def states(tier, seed):
 
 def nodes_of(s):
     """beam axis: built from a two-row mesh; returns the mesh (SpatialBeamSetup derives nodes from it)"""
-    pf = {"straight": "rect", "swept": "swept", "sweptdi": "twdi", "kinked": "swept"}[s["layout"]]
+    pf = {"straight": "rect", "swept": "swept", "sweptdi": "twdi", "kinked": "swept", "swept60": "rect", "winglet": "swept"}[s["layout"]]
     m = gen.make_mesh(pf, 2, s["ny"], s["side"], s["fam"], asym=(s["side"] == "full" and s["layout"] != "straight"), span=10.0, chord=1.2)
+    if s["layout"] == "swept60":
+        # elements that run more chordwise than spanwise (sweep beyond 45 degrees), with a little dihedral
+        m[:, :, 0] += 1.7 * np.abs(m[:, :, 1])
+        m[:, :, 2] += 0.08 * np.abs(m[:, :, 1])
+    if s["layout"] == "winglet":
+        # the outermost 15 % of the semi-span is bent up steeply and swept aft: elements nearly vertical
+        y = np.abs(m[:, :, 1])
+        out = np.maximum(y - 0.85 * y.max(), 0.0)
+        m[:, :, 2] += 4.0 * out
+        m[:, :, 0] += 1.5 * out
     if s["layout"] == "kinked":
         y = np.abs(m[:, :, 1])
         m[:, :, 2] += 0.25 * np.maximum(y - 2.0, 0.0)
